@@ -43,6 +43,10 @@ static const char *prefixes[4];
 static int nprefix;
 static int cls_f, cls_s, cls_p;
 static long kill_at = -1, hold_at = -1, fail_at = -1, fail_errno = 0;
+/* -f NAME#N:ERRNO: the N-th counted call NAMEd so fails (robust against the
+ * order in which the threads of the tracee reach their calls) */
+static const char *fail_name = 0;
+static long fail_nth = 0, fail_seen = 0;
 static const char *run_cmd, *log_path, *out_path;
 static FILE *logf;
 static long counted;
@@ -221,8 +225,16 @@ int main(int argc, char **argv) {
 		else if (!strcmp(argv[i], "-r") && i + 1 < argc) run_cmd = argv[++i];
 		else if (!strcmp(argv[i], "-f") && i + 1 < argc) {
 			char *c = strchr(argv[++i], ':');
-			fail_at = atol(argv[i]);
 			fail_errno = c ? atol(c + 1) : 5;
+			if (argv[i][0] >= '0' && argv[i][0] <= '9') fail_at = atol(argv[i]);
+			else {
+				char *h = strchr(argv[i], '#');
+				fail_nth = h ? atol(h + 1) : 1;
+				size_t n = h ? (size_t)(h - argv[i]) : (c ? (size_t)(c - argv[i]) : strlen(argv[i]));
+				char *nm = malloc(n + 1);
+				memcpy(nm, argv[i], n); nm[n] = 0;
+				fail_name = nm;
+			}
 		}
 		else if (!strcmp(argv[i], "-l") && i + 1 < argc) log_path = argv[++i];
 		else if (!strcmp(argv[i], "-o") && i + 1 < argc) out_path = argv[++i];
@@ -296,7 +308,7 @@ int main(int argc, char **argv) {
 						/* leaving kills every tracee (PTRACE_O_EXITKILL) before the call executes */
 						finish("killed", 137);
 					}
-					if (counted == fail_at) {
+					if (counted == fail_at || (fail_name && !strcmp(name, fail_name) && ++fail_seen == fail_nth)) {
 						struct user_regs_struct regs;
 						if (ptrace(PTRACE_GETREGS, pid, 0, &regs) == 0) {
 							regs.orig_rax = (unsigned long long)-1; /* no such call: the kernel skips it */
